@@ -1596,8 +1596,16 @@ void DOMLSSerializerImpl::procUnrepCharInCdataSection(const XMLCh*   const nodeV
 
             while (srcPtr < endPtr)
             {
-                // Build a char ref for the current char
-                XMLString::binToText(*srcPtr, &tmpBuf[3], 8, 16, fMemoryManager);
+                // Build a char ref for the current char; a surrogate pair
+                // is one character and gets one reference
+                if ((*srcPtr >= 0xD800) && (*srcPtr <= 0xDBFF) && (srcPtr + 1 < endPtr)
+                    && (srcPtr[1] >= 0xDC00) && (srcPtr[1] <= 0xDFFF))
+                {
+                    XMLString::binToText(0x10000 + ((srcPtr[0] - 0xD800) << 10) + (srcPtr[1] - 0xDC00), &tmpBuf[3], 8, 16, fMemoryManager);
+                    srcPtr++;
+                }
+                else
+                    XMLString::binToText(*srcPtr, &tmpBuf[3], 8, 16, fMemoryManager);
                 const XMLSize_t bufLen = XMLString::stringLen(tmpBuf);
                 tmpBuf[bufLen] = chSemiColon;
                 tmpBuf[bufLen+1] = chNull;
